@@ -382,8 +382,22 @@ func GenIngress(rng *rand.Rand, cfg Config, k int) *networking.Ingress {
 		stamp = 15
 	}
 	var rules []IngRule
+	// one ingress in eight declares only host-less rules: it touches nothing but the
+	// default host, so no other host of the same ingress hides what happens to it
+	onlyDefault := rng.Intn(8) == 0
+	if onlyDefault {
+		onlyDefault = false
+		for _, h := range cfg.hosts() {
+			if h == "" {
+				onlyDefault = true
+			}
+		}
+	}
 	for i, n := 0, rng.Intn(4); i < n; i++ {
 		r := IngRule{Host: pick(rng, cfg.hosts())}
+		if onlyDefault {
+			r.Host = ""
+		}
 		for j, m := 0, 1+rng.Intn(3); j < m; j++ {
 			r.Paths = append(r.Paths, GenPath(rng, cfg))
 		}
